@@ -1,11 +1,14 @@
 """Delta debugging of a failing step list: the same oracle clause of the same
 property must keep failing."""
 import copy
+import os
 import time
 
 
 def ddmin(steps, fails, budget_s=45.0):
     """steps: list; fails(list) -> bool.  Returns a (locally) minimal failing list."""
+    if os.environ.get("VERIF_STOP_FIRST"):
+        budget_s = min(budget_s, 8.0)      # screening mode
     t0 = time.time()
     cur = list(steps)
     n = 2
@@ -31,6 +34,8 @@ def ddmin(steps, fails, budget_s=45.0):
 def simplify_steps(steps, fails, budget_s=20.0):
     """argument-level simplifications: drop segmentation, batches into sends,
     drop optional keys, shrink time steps"""
+    if os.environ.get("VERIF_STOP_FIRST"):
+        budget_s = min(budget_s, 3.0)
     t0 = time.time()
     cur = copy.deepcopy(steps)
 
